@@ -1,7 +1,7 @@
 """C18 - TBCD digit encoding round-trips for every digit string."""
 import ast
 
-from ..astutil import make_cfg, call_name, fn_calls, kwarg, walk_no_nested
+from ..astutil import strip_doc, make_cfg, call_name, fn_calls, kwarg, walk_no_nested
 from .. import avpdict
 
 META = {
@@ -132,70 +132,138 @@ def check(ctx):
                               key="normalise")
 
     ctx.clause = "2-codec-symmetry"
+    # One iteration of each codec loop on terms (bsa.sym): P = the pair taken at the current offset (the helper that takes it
+    # is inlined by the interpreter), REV(P) = P[::-1].  What is compared is what each branch appends and how far it advances.
+    from .. import sym
     info = {}
+
+    def contains(t, pred):
+        if pred(t):
+            return True
+        return isinstance(t, tuple) and any(contains(x, pred) for x in t if isinstance(x, tuple))
+
+    def helper_inline(f, args, kws, node, st, it):
+        # get_two_bits(input, offset)-style one-expression helpers of bromelia.utils are evaluated in place
+        if isinstance(f, tuple) and f[0] == "name" and f[1] in m.funcs and f[1] not in ("encode_to_tbcd", "decode_from_tbcd"):
+            h = m.funcs[f[1]]
+            body = [s_ for s_ in h.body if not (isinstance(s_, ast.Expr) and isinstance(s_.value, ast.Constant))]
+            ps = [a.arg for a in h.args.args]
+            if len(body) == 1 and isinstance(body[0], ast.Return) and body[0].value is not None and len(ps) == len(args) and not kws \
+                    and isinstance(body[0].value, ast.Subscript):
+                return it.ev(body[0].value, sym.PathState(dict(zip(ps, args)), [], []))
+        return None
     for role, fn in (("enc", enc), ("dec", dec)):
         construct = f"bromelia.utils.{fn.name}"
         where = f"{m.rel}:{fn.lineno}"
-        lp = _loop(fn)
-        if lp is None:
-            ctx.undecided("R-CODEC", construct, where, "expected exactly one while loop over the input", key="loop")
+        loops = [n for n in walk_no_nested(fn) if isinstance(n, (ast.While, ast.For))]
+        if len(loops) != 1:
+            ctx.undecided("R-CODEC", construct, where, "expected exactly one loop over the input", key="loop")
             continue
-        w, site = _pair_width(repo, m, fn)
-        # pair variable = target of the assignment holding the pair
-        pv = None
-        for s in lp.body:
-            if isinstance(s, ast.Assign) and len(s.targets) == 1 and isinstance(s.targets[0], ast.Name):
-                pv = s.targets[0].id
-                break
-        ifs = [s for s in lp.body if isinstance(s, ast.If)]
-        if w is None or pv is None or len(ifs) != 1:
-            ctx.undecided("R-CODEC", construct, where, "pair extraction / branch shape not recognised", key="shape")
-            continue
-        iff = ifs[0]
-        test = ast.unparse(iff.test)
-        # which branch handles the full pair?
-        if role == "enc":
-            full_first = test in (f"len({pv}) == 2", f"len({pv}) == {w}")
-            neg = test in (f"len({pv}) != 2", f"len({pv}) < 2", f"len({pv}) == 1")
+        lp = loops[0]
+        p0 = fn.args.args[0].arg
+        INP, O = sym.S(p0), sym.S("int:o")
+        range_step = None
+        if isinstance(lp, ast.While):
+            idx = _offset_var(lp)
+            if idx is None:
+                idx = next((n.id for n in ast.walk(lp.test) if isinstance(n, ast.Name) and n.id != p0), None)
         else:
-            full_first = test in (f"'f' not in {pv}", f"not 'f' in {pv}") or \
-                (isinstance(iff.test, ast.Compare) and isinstance(iff.test.ops[0], ast.NotIn) and ast.unparse(iff.test.comparators[0]) == pv)
-            neg = isinstance(iff.test, ast.Compare) and isinstance(iff.test.ops[0], ast.In) and ast.unparse(iff.test.comparators[0]) == pv
-        if not (full_first or neg):
-            ctx.undecided("R-CODEC", construct, where, f"branch condition `{test}` not recognised", key="branch")
+            idx = lp.target.id if isinstance(lp.target, ast.Name) else None
+            if isinstance(lp.iter, ast.Call) and call_name(lp.iter) == "range" and len(lp.iter.args) == 3:
+                range_step = repo.fold(m, lp.iter.args[2])
+            elif isinstance(lp.iter, ast.Call) and call_name(lp.iter) == "range":
+                range_step = 1
+        if idx is None:
+            ctx.undecided("R-CODEC", construct, where, "loop index not recognised", key="shape")
             continue
-        full, tail = (iff.body, iff.orelse) if full_first else (iff.orelse, iff.body)
-        steps = _steps(full, _offset_var(lp) or "offset")
-        info[role] = dict(w=w, pv=pv, full=full, tail=tail, test=iff.test, fn=fn, steps=steps)
+        it = sym.Interp(fold=lambda e: repo.fold(m, e), inline=helper_inline, log_calls=True)
+        paths = it.loop_body(lp, {idx: O, p0: INP})
+        # the pair: input[o : o + w]
+        pair = None
+        for p_ in paths:
+            for v in list(p_.env.values()) + [c for c, _ in p_.conds]:
+                def is_pair(t):
+                    return isinstance(t, tuple) and len(t) == 4 and t[0] == "slice" and t[2] == O and \
+                        (t[1] == INP or (isinstance(t[1], tuple) and t[1][0] == "name"))
+                if contains(v, is_pair):
+                    def grab(t):
+                        nonlocal pair
+                        if is_pair(t):
+                            pair = t
+                        elif isinstance(t, tuple):
+                            for x in t:
+                                if isinstance(x, tuple):
+                                    grab(x)
+                    grab(v)
+        if pair is None:
+            ctx.undecided("R-CODEC", construct, where, "pair extraction not recognised", key="shape")
+            continue
+        wterm = sym.add(pair[3], O, -1) if pair[3] is not None else None
+        w = wterm if sym.is_int(wterm) else None
+        REV = lambda t: isinstance(t, tuple) and len(t) == 5 and t[0] == "slice3" and t[1] == pair and t[2:] == (None, None, -1)
+
+        def appended(p_):
+            """terms appended to the output accumulator on this path"""
+            out = []
+            if p_.term == "return" and isinstance(p_.value, tuple) and len(p_.value) == 4 and p_.value[:2] == ("op", "Add") \
+                    and isinstance(p_.value[2], tuple) and p_.value[2][0] == "name":
+                out.append(p_.value[3])       # `return acc + X`
+            for k, v in p_.env.items():
+                if isinstance(v, tuple) and len(v) == 4 and v[0] == "op" and v[1] == "Add" and v[2] == ("name", k):
+                    out.append(v[3])
+                elif isinstance(v, tuple) and len(v) == 4 and v[0] == "op" and v[1] == "Add" and isinstance(v[2], tuple) and len(v[2]) == 4 \
+                        and v[2][:2] == ("op", "Add") and v[2][2] == ("name", k):
+                    out.extend([v[2][3], v[3]])
+            return out
+
+        def is_full(p_):
+            for c, tv in p_.conds:
+                if role == "enc" and isinstance(c, tuple) and c[0] == "cmp" and c[2] == ("call", ("name", "len"), (pair,), ()):
+                    if c[1] == "Eq" and c[3] in (2, w):
+                        return tv
+                    if (c[1] == "Eq" and c[3] == 1) or (c[1] == "Lt" and c[3] == 2):
+                        return not tv
+                if role == "dec" and isinstance(c, tuple) and c[0] == "cmp" and c[1] == "In" and c[3] == pair and isinstance(c[2], str):
+                    return not tv
+            return None
+        full = [p_ for p_ in paths if is_full(p_) is True]
+        tail = [p_ for p_ in paths if is_full(p_) is False]
+        if not full or not tail or len(full) + len(tail) != len(paths):
+            ctx.undecided("R-CODEC", construct, where, f"full-pair / tail branches not recognised ({len(full)} full, {len(tail)} tail, "
+                          f"{len(paths)} paths)", key="branch")
+            continue
+        steps = sorted({sym.add(p_.get(idx), O, -1) if isinstance(lp, ast.While) else range_step for p_ in full}, key=str)
+        fill_d = next((c[2] for p_ in paths for c, tv in p_.conds if role == "dec" and isinstance(c, tuple) and c[0] == "cmp"
+                       and c[1] == "In" and c[3] == pair), None)
+        info[role] = dict(w=w, full=full, tail=tail, fn=fn, steps=steps, pair=pair, fill_d=fill_d, idx=idx, appended=appended, lp=lp)
         ctx.decide(steps == [w] and w == 2, "R-CODEC/step", construct, where, f"loop steps by the pair width {w}",
-                   f"pair width is {w} but the loop index advances by {steps} in the full-pair branch: digits are skipped or "
-                   f"re-read", key="step")
-        ctx.decide(_has_reversal(full, pv), "R-CODEC/involution", construct, where, "full pair is swapped ([::-1])",
-                   "the full-pair branch does not swap the two digits ([::-1]): encoder and decoder are no longer inverse",
-                   key="swap")
-        ctx.decide(not _has_reversal(tail, pv), "R-CODEC/involution", construct, where, "tail is not swapped",
-                   "the odd-length tail is swapped as if it were a full pair", key="tail_swap", nontrivial=False)
+                   f"pair width is {w} but the loop index advances by {[sym.show(s_) for s_ in steps]} in the full-pair branch: digits are "
+                   f"skipped or re-read", key="step")
+        ctx.decide(all(any(contains(a_, REV) for a_ in appended(p_)) for p_ in full), "R-CODEC/involution", construct, where,
+                   "full pair is swapped ([::-1])",
+                   "the full-pair branch does not swap the two digits ([::-1]): encoder and decoder are no longer inverse", key="swap")
+        ctx.decide(not any(contains(a_, REV) for p_ in tail for a_ in appended(p_)), "R-CODEC/involution", construct, where,
+                   "tail is not swapped", "the odd-length tail is swapped as if it were a full pair", key="tail_swap", nontrivial=False)
     if "enc" in info and "dec" in info:
         e, d = info["enc"], info["dec"]
-        # encoder filler: "<c>" + pair  (filler first)
         fill_e = pos_e = None
-        for s in e["tail"]:
-            for n in ast.walk(s):
-                if isinstance(n, ast.BinOp) and isinstance(n.op, ast.Add):
-                    if isinstance(n.left, ast.Constant) and isinstance(n.left.value, str) and e["pv"] in ast.unparse(n.right):
-                        fill_e, pos_e = n.left.value, 0
-                    elif isinstance(n.right, ast.Constant) and isinstance(n.right.value, str) and e["pv"] in ast.unparse(n.left):
-                        fill_e, pos_e = n.right.value, 1
-        fill_d = None
-        t = d["test"]
-        if isinstance(t, ast.Compare) and isinstance(t.left, ast.Constant):
-            fill_d = t.left.value
+        for p_ in e["tail"]:
+            for a_ in e["appended"](p_):
+                if isinstance(a_, tuple) and len(a_) == 4 and a_[0] == "op" and a_[1] == "Add":
+                    if isinstance(a_[2], str) and contains(a_[3], lambda t: t == e["pair"]):
+                        fill_e, pos_e = a_[2], 0
+                    elif isinstance(a_[3], str) and contains(a_[2], lambda t: t == e["pair"]):
+                        fill_e, pos_e = a_[3], 1
+                elif isinstance(a_, tuple) and a_[0] == "fstr":
+                    lits = [x for x in a_[1] if isinstance(x, str)]
+                    if len(lits) == 1 and len(a_[1]) == 2:
+                        fill_e, pos_e = lits[0], 0 if isinstance(a_[1][0], str) else 1
+        fill_d = d["fill_d"]
         idx_d = None
-        for s in d["tail"]:
-            for n in ast.walk(s):
-                if isinstance(n, ast.Subscript) and isinstance(n.value, ast.Name) and n.value.id == d["pv"] \
-                        and isinstance(n.slice, ast.Constant):
-                    idx_d = n.slice.value
+        for p_ in d["tail"]:
+            for a_ in d["appended"](p_):
+                if isinstance(a_, tuple) and a_[0] == "sub" and a_[1] == d["pair"] and sym.is_int(a_[2]):
+                    idx_d = a_[2]
         where = f"{m.rel}:{enc.lineno}"
         if fill_e is None or fill_d is None or idx_d is None:
             ctx.undecided("R-CODEC/filler", "bromelia.utils.encode_to_tbcd+decode_from_tbcd", where,
@@ -209,11 +277,11 @@ def check(ctx):
                        where, "filler at position 0, digit taken from position 1",
                        f"encoder puts the filler at position {pos_e} while the decoder takes the digit at position {idx_d}: "
                        f"the last digit of an odd-length number is lost or replaced by the filler", key="filler_pos")
-        # tail returns
         for role, x in (("enc", e), ("dec", d)):
-            has_ret = any(isinstance(n, ast.Return) and n.value is not None for s in x["tail"] for n in ast.walk(s))
-            adv = _steps(x["tail"], "offset")
-            ctx.decide(has_ret or bool(adv), "R-CODEC/tail-terminates", f"bromelia.utils.{x['fn'].name}",
+            ok_t = all(p_.term in ("return", "break") or (isinstance(x["lp"], ast.While) and sym.is_int(sym.add(p_.get(x["idx"]), sym.S("int:o"), -1))
+                                                            and sym.add(p_.get(x["idx"]), sym.S("int:o"), -1) > 0)
+                       or isinstance(x["lp"], ast.For) for p_ in x["tail"])
+            ctx.decide(ok_t, "R-CODEC/tail-terminates", f"bromelia.utils.{x['fn'].name}",
                        f"{m.rel}:{x['fn'].lineno}", "tail branch returns or advances",
                        "the odd-length tail branch neither returns nor advances the index: the loop never ends", key="tail_term")
     ctx.floor("codec_functions", len(info), 2)
@@ -224,18 +292,34 @@ def check(ctx):
         ci = ctx.need(repo.cls(q), q)
         f = ctx.need(ci.methods.get("encode"), f"{q}.encode")
         sibs.append((ci, f))
-        rets = [n for n in ast.walk(f) if isinstance(n, ast.Return) and n.value is not None]
-        texts = [ast.unparse(r.value) for r in rets]
+        # on terms: int / str -> bytes.fromhex(encode_to_tbcd(n)) with n = the number itself (or int()/str() of it, which keep
+        # every digit of a canonical number), bytes -> the given object
         p = f.args.args[1].arg if len(f.args.args) > 1 else "data"
-        want_int = f"bytes.fromhex(encode_to_tbcd({p}))"
-        inner_ok = {f"bytes.fromhex(encode_to_tbcd({x}))" for x in (p, f"int({p})", f"str({p})", f"str(int({p}))")}
-        ok = want_int in texts and p in texts and all(t == p or t in inner_ok for t in texts)
+        D = sym.S(p)
+        okr, shown = True, []
+        n_num = 0
+        for p_ in sym.Interp().run(strip_doc(f.body), sym.PathState({p: D}, [], [])):
+            if p_.term != "return" or p_.value is None:
+                continue
+            v = p_.value
+            shown.append(sym.show(v))
+            if v == D:
+                continue
+            inner_ok = [D, ("call", ("name", "int"), (D,), ()), ("call", ("name", "str"), (D,), ()),
+                        ("call", ("name", "str"), (("call", ("name", "int"), (D,), ()),), ())]
+            good = isinstance(v, tuple) and v[0] == "call" and v[1] == ("attr", ("name", "bytes"), "fromhex") and len(v[2]) == 1 \
+                and isinstance(v[2][0], tuple) and v[2][0][0] == "call" and v[2][0][1] == ("name", "encode_to_tbcd") and len(v[2][0][2]) == 1 \
+                and v[2][0][2][0] in inner_ok
+            n_num += good
+            okr = okr and good
+        ok = okr and n_num >= 1 and sym.show(D) in shown
+        texts = sorted(set(shown))
         ctx.decide(ok, "R-SIB/encode", f"{q}.encode", ci.where(f),
                    "number -> bytes.fromhex(encode_to_tbcd(.)), bytes pass through",
                    f"encode() returns {texts}: a number is not carried as bytes.fromhex(encode_to_tbcd(number))", key="encode")
         # resolves to utils.encode_to_tbcd
-        sym = repo.resolve(ci.mod, "encode_to_tbcd")
-        ctx.decide(sym is not None and sym.kind == "func" and sym.node is enc, "R-SIB/encode", f"{q}.encode", ci.where(f),
+        rsym = repo.resolve(ci.mod, "encode_to_tbcd")
+        ctx.decide(rsym is not None and rsym.kind == "func" and rsym.node is enc, "R-SIB/encode", f"{q}.encode", ci.where(f),
                    "encode_to_tbcd resolves to bromelia.utils.encode_to_tbcd",
                    "encode_to_tbcd used by the AVP is not bromelia.utils.encode_to_tbcd", key="resolve", nontrivial=False)
         ini = ci.methods.get("__init__")
@@ -250,7 +334,13 @@ def check(ctx):
                    "type initialiser receives self.encode(data)",
                    "the type initialiser does not receive self.encode(data): the number is not TBCD-encoded", key="ctor")
     a, b = sibs
-    same = ast.dump(a[1]) == ast.dump(b[1])
+    def table(fn_):
+        pn = fn_.args.args[1].arg if len(fn_.args.args) > 1 else "data"
+        rows = set()
+        for p_ in sym.Interp().run(strip_doc(fn_.body), sym.PathState({pn: sym.S("DATA")}, [], [])):
+            rows.add((tuple(sorted((sym.show(c), tv) for c, tv in p_.conds)), p_.term, sym.show(p_.value) if p_.value is not None else None))
+        return rows
+    same = table(a[1]) == table(b[1])
     ctx.decide(same, "R-SIB/encode", "MsisdnAVP.encode~StnSrAVP.encode", a[0].where(a[1]),
                "the two encode() implementations are structurally identical",
                "MsisdnAVP.encode and StnSrAVP.encode differ structurally: the two AVPs no longer carry the same encoding",
